@@ -108,6 +108,12 @@ def normalise(raw_events):
                 taken.add((e["b"], e["bstream"]))
                 out.append({"ev": "Take", "r": r, "h": hostmap.get(e["host"], e["host"]), "b": e["b"],
                             "bs": e["bstream"], "op": e["op"]})
+            elif ev == "BackendBadFrame":
+                if e["b"] in registered:
+                    continue
+                isprep = (e["b"], e["bstream"]) in prepmap
+                r = prepmap.pop((e["b"], e["bstream"])) if isprep else 0
+                out.append({"ev": "BadFrame", "r": r, "b": e["b"], "bs": e["bstream"], "prep": isprep})
             elif ev == "BackendReply":
                 if (e["b"], e["bstream"]) in taken:
                     taken.discard((e["b"], e["bstream"]))
